@@ -63,9 +63,24 @@ class Quant:
     def is_returned(self, f):
         pv = Prov(self.m, "value")
         trues, falses, direct = [], [], []
+        # the return place and the locals that are only copied into it (the return value of a helper that was inlined back
+        # travels through such a local)
+        RET = {0}
+        changed = True
+        while changed:
+            changed = False
+            for b in f.blocks:
+                for s in b["s"]:
+                    if s[0] == "A" and s[1][0] in RET and not s[1][1] and s[2][0] == "use" and s[2][1][0] in ("c", "m") and not s[2][1][1][1]:
+                        L = s[2][1][1][0]
+                        if L not in RET and len(f.defs().get(L, [])) > 1:
+                            RET.add(L)
+                            changed = True
         for bi, b in enumerate(f.blocks):
             for s in b["s"]:
-                if s[0] == "A" and s[1][0] == 0 and not s[1][1]:
+                if s[0] == "A" and s[1][0] in RET and not s[1][1]:
+                    if s[2][0] == "use" and s[2][1][0] in ("c", "m") and not s[2][1][1][1] and s[2][1][1][0] in RET:
+                        continue
                     rv = s[2]
                     if rv[0] == "use" and rv[1][0] == "k" and rv[1][1].get("ty") == "bool":
                         (trues if rv[1][1].get("int") == "1" else falses).append(bi)
@@ -76,7 +91,7 @@ class Quant:
                     elif rv[0] == "un" and rv[1] == "Not":
                         direct.append((bi, ("not", pv.root(f, rv[2]))))
             t = b["t"]
-            if t[0] == "call" and t[3][0] == 0 and not t[3][1]:
+            if t[0] == "call" and t[3][0] in RET and not t[3][1]:
                 direct.append((bi, ("call", t[1].get("q") or "", bi, ())))
         for bi, r in direct:
             mt = self._match(r)
